@@ -680,6 +680,9 @@ func scribbleV2(t *types.V2Transaction) {
 }
 
 func conflictsV1(x types.Transaction, pre poolSnap) bool {
+	if _, known := pre.ids[x.ID()]; known {
+		return false // already pooled: known, not conflicting
+	}
 	spent := map[types.SiacoinOutputID]bool{}
 	for _, p := range pre.v1 {
 		for _, in := range p.SiacoinInputs {
@@ -700,6 +703,9 @@ func conflictsV1(x types.Transaction, pre poolSnap) bool {
 }
 
 func conflictsV2(x types.V2Transaction, pre poolSnap) bool {
+	if _, known := pre.ids[x.ID()]; known {
+		return false // the generator re-made a transaction that is already pooled: known, not conflicting
+	}
 	spent := map[types.SiacoinOutputID]bool{}
 	for _, p := range pre.v1 {
 		for _, in := range p.SiacoinInputs {
